@@ -42,7 +42,7 @@ func genCrashpoints(r *rng, index int, stride int) *Spec {
 		// not outlive the connection
 		c.LockHeldTTLMs = int64(r.pickInt(30000, 30000, 1000))
 		ca.CutMs = c.SessionTimeoutMs + int64(r.pickInt(1500, 8000, 20000))
-		if r.chance(0.35) {
+		if r.chance(0.5) {
 			// long catch-up (slow appliers everywhere) and a short cut: the cut manager is back in a
 			// new session while it still waits for its candidate to catch up
 			for i := range sp.Hosts {
